@@ -177,6 +177,12 @@ AggregateInOrder ==
         /\ Len(order[d][r]) = k[d] + 1
         /\ \A p \in 1 .. Len(order[d][r]) : order[d][r][p] = p - 1
 
+(* What a reference with method m from outside the loop to the placeholder of role r of loop d resolves to:     *)
+(* the sequence of iterations whose working directory (:ref, :loopref) / output (:output, :loopoutput) it yields. *)
+Resolve(d, r, m) == IF m \in Agg THEN order[d][r] ELSE <<latest[d][r]>>
+OutsideResolution == \A d \in Loops(sh) : \A r \in Roles(sh) : \A m \in Meths :
+                        Resolve(d, r, m) = IF m \in Agg THEN [p \in 1 .. k[d] + 1 |-> p - 1] ELSE <<k[d]>>
+
 (* "the loop's current condition is the one produced by iteration k" -- of that loop *)
 ConditionFromNewest == \A d \in Loops(sh) : cond[d] = k[d]
 
